@@ -84,6 +84,21 @@ func VerifC07RogueServer() {
 	t0 := vf.Now()
 	vf.ShortScenario(t0, time.Second)
 	st, creds := vfC16Server(ctx, t0)
+	// the same process may have built client configurations before, for other credentials issued under the foreign
+	// root that rogue kind 2 uses (another deployment, or the roots before a reinitialisation): what a node trusts is
+	// what ITS stored credentials hold, not what the process has seen
+	if vf.Bool("process-built-configurations-for-credentials-of-the-foreign-root-before") {
+		ftmpl := &x509.Certificate{SubjectKeyId: vf.Pkix(5), Subject: pkix.Name{CommonName: "root"}, SerialNumber: big.NewInt(1),
+			NotBefore: t0.Add(-time.Hour), NotAfter: t0.Add(time.Hour), IsCA: true, BasicConstraintsValid: true}
+		ftmpl2 := vfs.RootTemplate(7, t0.Add(-time.Hour), t0.Add(time.Hour))
+		other := &types.NodeCredentials{Id: string(nodeenrollment.CurrentId), CertificatePublicKeyPkix: vf.Pkix(4), CertificatePrivateKeyPkcs8: vf.Pkcs8(4), CertificatePrivateKeyType: types.KEYTYPE_ED25519,
+			CertificateBundles: []*types.CertificateBundle{
+				{CertificateDer: vfNodeLeaf(ftmpl, 4, 5, x509.ExtKeyUsageClientAuth), CaCertificateDer: vfs.MkCert(ftmpl, ftmpl, 5, 5)},
+				{CertificateDer: vfNodeLeaf(ftmpl2, 4, 7, x509.ExtKeyUsageClientAuth), CaCertificateDer: vfs.MkCert(ftmpl2, ftmpl2, 7, 7)}}}
+		if _, oerr := nodetls.ClientConfigs(ctx, other); oerr != nil {
+			panic(oerr)
+		}
+	}
 	cfgs, err := nodetls.ClientConfigs(ctx, creds, vfDialOptions()...)
 	if err != nil || len(cfgs) != 2 {
 		panic("client configs")
@@ -242,6 +257,7 @@ type vfServerPeerLive struct {
 	RequestsClientCert bool
 	AcceptableCAs      [][]byte
 	Respond            func(protos []string) (string, [][]byte, bool)
+	RefuseErr          error // what the client's handshake returns when Respond refuses (engine side; natively crypto/tls's *net.OpError for the alert)
 }
 
 // C07 (pending authorization): a node that is not authorized yet gets the not-authorized error from its fetch
